@@ -345,7 +345,7 @@ def main(argv):
         selftest.run(ctx, fx)
         if hasattr(mod, 'selftest'):
             mod.selftest(ctx, fx)
-        if ctx.fixture_controls['failed'] or ctx.fixture_controls['total'] < 30:
+        if ctx.fixture_controls['failed'] or ctx.fixture_controls['total'] < 34:
             raise CheckBroken('selftest: fixture controls misbehave: %s' % ctx.fixture_controls)
         run_module(mod, ctx)
         extra = None
